@@ -308,6 +308,9 @@ fn model_decode(rep: &mut Report, model: &mut Model, bytes: &[u8], secret: Optio
         let st = f["stage"].as_str().unwrap_or("?").to_string();
         return Err(("decode".into(), json!({"stage": st, "class": e}), format!("the independent decoder rejects the compression layer at stage {st}: {e}")));
     }
+    if f["table_mismatch"].as_u64().unwrap_or(0) != 0 {
+        return Err(("decode".into(), json!({"stage": "brotli-native", "class": "differs-from-crate"}), format!("the model's RFC 7932 decoder and the brotli crate decode {} block(s) of this archive differently", f["table_mismatch"])));
+    }
     let (index, files) = (f["index"].clone(), f["files"].clone());
     Ok(ModelDecoded { first: d, inner, index, files })
 }
